@@ -30,6 +30,7 @@ CallerStep ==
           /\ \A i \in DOMAIN c : /\ c[i].execs <= 1
                                  /\ (c[i].st = "dropped" => c[i].execs = 0)
                                  /\ (c[i].st = "refused" => c[i].execs = 0)
+                                 /\ c[i].st # "queued"        \* the owner's loop kept running: every queued call was executed
           /\ e.blocked = 0
           /\ UNCHANGED c
   /\ lc' = lc + 1 /\ UNCHANGED <<lo, tid>>
